@@ -110,7 +110,17 @@ pub fn for_single<S: Sch>(rec: &mut Rec, w: Width, mut f: impl FnMut(&mut Rec, &
     }
     for cfg in cfgs {
         let shapes = if w == Width::Wide { S::shapes(&cfg, rec.seed) } else { shapes_short::<S>(&cfg, rec.seed) };
-        let pts: Vec<_> = S::points(&cfg, rec.seed).into_iter().take(if w == Width::Narrow { 1 } else { 2 }).collect();
+        // the generic point first; for the multilinear / multivariate families also the point with a 0 and a 1
+        // among its coordinates (tensors with zero entries) at every width
+        let all_pts = S::points(&cfg, rec.seed);
+        let mut pts: Vec<_> = all_pts.iter().take(if w == Width::Narrow { 1 } else { 2 }).cloned().collect();
+        if S::FAM != Fam::Uni {
+            if let Some(m) = all_pts.iter().find(|(n, _)| n == "mixed") {
+                if !pts.iter().any(|(n, _)| n == "mixed") {
+                    pts.push(m.clone());
+                }
+            }
+        }
         let mut todo = Vec::new();
         for (sname, p) in shapes.iter() {
             for (b, h) in lp_options::<S>(&cfg, S::degree(p), false) {
@@ -149,7 +159,13 @@ pub fn for_single<S: Sch>(rec: &mut Rec, w: Width, mut f: impl FnMut(&mut Rec, &
     }
     // slice B' : the fixed three-polynomial set, 1..3 polynomials at one point
     let cfg = slice_b::<S>();
-    let labels = slice_b_labels::<S>(&cfg, rec.seed);
+    let mut labels = slice_b_labels::<S>(&cfg, rec.seed);
+    if S::FAM != Fam::Uni {
+        // a point with a 0 and a 1 among its coordinates
+        if let Some((_, m)) = S::points(&cfg, rec.seed).into_iter().find(|(n, _)| n == "mixed") {
+            labels.push(("m".into(), m));
+        }
+    }
     let mut todo = Vec::new();
     let sels: Vec<Vec<usize>> = vec![vec![0], vec![1], vec![0, 1], vec![1, 0], vec![0, 1, 2], vec![2, 1, 0]];
     for sel in sels {
